@@ -9,7 +9,26 @@ use common::*;
 
 fn groups_for(prop: &str) -> Vec<Box<dyn Group>> {
     match prop {
-        "C12" => vec![Box::new(props::c12::C12Unit), Box::new(props::c12::C12Node)],
+        "C01" => props::c01::groups(),
+        "C02" => props::c02::groups(),
+        "C03" => props::c03::groups(),
+        "C04" => props::c04::groups(),
+        "C05" => props::c05::groups(),
+        "C06" => props::c06::groups(),
+        "C07" => props::c07::groups(),
+        "C08" => props::c08::groups(),
+        "C09" => props::c09::groups(),
+        "C10" => props::c10::groups(),
+        "C11" => props::c11::groups(),
+        "C12" => props::c12::groups(),
+        "C13" => props::c13::groups(),
+        "C14" => props::c14::groups(),
+        "C15" => props::c15::groups(),
+        "C16" => props::c16::groups(),
+        "C17" => props::c17::groups(),
+        "C18" => props::c18::groups(),
+        "C19" => props::c19::groups(),
+        "C20" => props::c20::groups(),
         _ => vec![],
     }
 }
